@@ -1,1 +1,241 @@
-// harnesses for automerge/src/storage/chunk.rs
+// G-CHUNK: chunk framing and checksum comparison (child module of automerge::storage::chunk).
+use super::*;
+use crate::storage::parse::{Input, ParseError, Split};
+
+/// SHA-256 is replaced by a function returning an arbitrary hash: every value the real function
+/// could return is included, so what is proved holds for the real one too.
+fn stub_hash(_typ: ChunkType, _data: &[u8]) -> ChangeHash {
+    ChangeHash(kani::any())
+}
+
+fn any_chunk_type() -> ChunkType {
+    let t: u8 = kani::any();
+    kani::assume(t <= 3);
+    ChunkType::try_from(t).unwrap()
+}
+
+/// Header::parse is total on every N-byte input; what it accepts is well framed: the magic bytes
+/// are exact, the type is known, the header is 10..=N bytes long and the announced data lies
+/// entirely inside the input; the returned input sits right after the header.
+fn header_total<const N: usize>() {
+    let bytes: [u8; N] = kani::any();
+    match Header::parse::<error::Header>(Input::new(&bytes)) {
+        Ok((rest, h)) => {
+            assert!(bytes[0] == 0x85 && bytes[1] == 0x6f && bytes[2] == 0x4a && bytes[3] == 0x83);
+            assert!(bytes[8] <= 3);
+            assert_eq!(u8::from(h.chunk_type), bytes[8]);
+            assert!(h.header_size >= 10 && h.header_size <= N);
+            assert!(h.data_bytes().start == h.header_size);
+            assert!(h.data_bytes().end <= N);
+            assert_eq!(h.data_bytes().len(), h.data_len);
+            assert_eq!(rest.unconsumed_bytes().len(), N - h.header_size);
+            assert_eq!(h.len(), h.header_size);
+            let c = h.checksum().bytes();
+            assert!(c[0] == bytes[4] && c[1] == bytes[5] && c[2] == bytes[6] && c[3] == bytes[7]);
+            kani::cover!(N == 10 || (h.data_len > 0 && h.data_bytes().end == N));
+            kani::cover!(h.data_len == 0);
+            // a 2-byte length needs >= 128 data bytes or an overlong encoding, which is rejected
+            assert!(N >= 139 || h.header_size == 10);
+        }
+        Err(ParseError::Incomplete(_)) => {
+            kani::cover!(bytes[0] == 0x85 && bytes[8] == 1);
+        }
+        Err(ParseError::Error(e)) => {
+            match e {
+                error::Header::InvalidMagicBytes => {
+                    assert!(!(bytes[0] == 0x85 && bytes[1] == 0x6f && bytes[2] == 0x4a && bytes[3] == 0x83))
+                }
+                error::Header::UnknownChunkType(t) => assert!(t > 3 && t == bytes[8]),
+                error::Header::Leb128(_) => {}
+            }
+            std::mem::forget(e);
+        }
+    }
+}
+
+macro_rules! header_total_harness {
+    ($name:ident, $n:expr) => {
+        #[kani::proof]
+        #[kani::unwind(12)]
+        #[kani::stub(crate::storage::chunk::hash, stub_hash)]
+        fn $name() {
+            header_total::<$n>()
+        }
+    };
+}
+header_total_harness!(chunk_header_total_len10, 10);
+header_total_harness!(chunk_header_total_len11, 11);
+header_total_harness!(chunk_header_total_len12, 12);
+header_total_harness!(chunk_header_total_len14, 14);
+header_total_harness!(chunk_header_total_len20, 20);
+
+/// Inputs shorter than the smallest header never parse.
+#[kani::proof]
+#[kani::unwind(12)]
+#[kani::stub(crate::storage::chunk::hash, stub_hash)]
+fn chunk_header_short_inputs_rejected() {
+    let bytes: [u8; 9] = kani::any();
+    let n: usize = kani::any();
+    kani::assume(n <= 9);
+    let r = Header::parse::<error::Header>(Input::new(&bytes[..n]));
+    assert!(r.is_err());
+    if bytes[0] == 0x85 && bytes[1] == 0x6f && bytes[2] == 0x4a && bytes[3] == 0x83 && bytes[8] <= 3 {
+        assert!(matches!(r, Err(ParseError::Incomplete(_))));
+        kani::cover!(n == 9);
+    }
+    kani::cover!(n == 0);
+    std::mem::forget(r);
+}
+
+/// Truncation: if a 14-byte buffer starts with an accepted chunk that ends at `total`, then every
+/// strict prefix shorter than `total` is rejected as incomplete, never parsed as a shorter chunk.
+#[kani::proof]
+#[kani::unwind(12)]
+#[kani::stub(crate::storage::chunk::hash, stub_hash)]
+fn chunk_truncation_rejected() {
+    let bytes: [u8; 14] = kani::any();
+    if let Ok((_, h)) = Header::parse::<error::Header>(Input::new(&bytes)) {
+        let total = h.header_size + h.data_len;
+        assert!(total <= 14);
+        let cut: usize = kani::any();
+        kani::assume(cut < total);
+        let r = Header::parse::<error::Header>(Input::new(&bytes[..cut]));
+        assert!(matches!(r, Err(ParseError::Incomplete(_))));
+        // and the whole chunk alone (no trailing bytes) parses to the same framing
+        match Header::parse::<error::Header>(Input::new(&bytes[..total])) {
+            Ok((_, h2)) => {
+                assert!(h2.header_size == h.header_size && h2.data_len == h.data_len);
+                assert!(h2.chunk_type == h.chunk_type && h2.checksum == h.checksum);
+            }
+            Err(_) => panic!("exact chunk must parse"),
+        }
+        kani::cover!(cut == total - 1 && h.data_len == 4);
+        kani::cover!(cut == 10 && h.data_len == 1);
+        std::mem::forget(r);
+    }
+}
+
+/// Header::write then Header::parse gives back type, length, header size and checksum, and leaves
+/// exactly the bytes that followed the chunk (data of D bytes, 2 trailing bytes).
+fn write_parse_roundtrip<const D: usize>() {
+    let data = [0x5au8; D];
+    let ct = any_chunk_type();
+    let h = Header::new(ct, &data);
+    let mut out = Vec::new();
+    h.write(&mut out);
+    assert_eq!(out.len(), h.len());
+    out.extend_from_slice(&data);
+    let t0: u8 = kani::any();
+    let t1: u8 = kani::any();
+    out.push(t0);
+    out.push(t1);
+    match Header::parse::<error::Header>(Input::new(&out)) {
+        Ok((i, p)) => {
+            assert!(p.chunk_type == ct);
+            assert_eq!(p.data_len, D);
+            assert_eq!(p.header_size, h.header_size);
+            assert!(p.checksum == h.checksum);
+            assert_eq!(p.data_bytes(), h.data_bytes());
+            // the walk over concatenated chunks (Chunk::parse + load_changes): split, then reset
+            let Split { first, remaining } = i.split(p.data_bytes().len());
+            assert_eq!(first.unconsumed_bytes().len(), D);
+            let next = remaining.reset();
+            assert_eq!(next.unconsumed_bytes().len(), 2);
+            assert!(next.unconsumed_bytes()[0] == t0 && next.unconsumed_bytes()[1] == t1);
+            assert_eq!(next.bytes().len(), 2);
+            kani::cover!(true);
+        }
+        Err(_) => panic!("a header we wrote must parse"),
+    }
+    std::mem::forget(out);
+}
+
+macro_rules! roundtrip_harness {
+    ($name:ident, $d:expr, $unwind:expr) => {
+        #[kani::proof]
+        #[kani::unwind($unwind)]
+        #[kani::stub(crate::storage::chunk::hash, stub_hash)]
+        fn $name() {
+            write_parse_roundtrip::<$d>()
+        }
+    };
+}
+roundtrip_harness!(chunk_header_roundtrip_d0, 0, 12);
+roundtrip_harness!(chunk_header_roundtrip_d1, 1, 12);
+roundtrip_harness!(chunk_header_roundtrip_d3, 3, 12);
+roundtrip_harness!(chunk_header_roundtrip_d200, 200, 12);
+
+/// The checksum comparison looks at all 32 stored bits: valid iff the four stored bytes equal the
+/// first four hash bytes; flipping any one stored bit of a valid checksum makes it invalid. Holds
+/// for every hash value (the hash is a free variable here).
+#[kani::proof]
+#[kani::unwind(34)] // ChangeHash == is a 32-byte memcmp
+fn chunk_checksum_compares_all_32_bits() {
+    let hash = ChangeHash(kani::any());
+    let stored: [u8; 4] = kani::any();
+    let h = Header {
+        checksum: CheckSum::from(stored),
+        chunk_type: any_chunk_type(),
+        data_len: kani::any(),
+        header_size: kani::any(),
+        hash,
+    };
+    let want = stored[0] == hash.0[0] && stored[1] == hash.0[1] && stored[2] == hash.0[2] && stored[3] == hash.0[3];
+    assert_eq!(h.checksum_valid(), want);
+    assert!(h.hash() == hash);
+    let bit: u8 = kani::any();
+    kani::assume(bit < 32);
+    let mut flipped = stored;
+    flipped[(bit / 8) as usize] ^= 1 << (bit % 8);
+    let h2 = Header { checksum: CheckSum::from(flipped), ..h.clone() };
+    if want {
+        assert!(!h2.checksum_valid());
+    }
+    // a checksum derived from a hash is its first four bytes
+    let c = CheckSum::from(hash);
+    assert!(c.bytes()[0] == hash.0[0] && c.bytes()[3] == hash.0[3] && c.bytes()[1] == hash.0[1] && c.bytes()[2] == hash.0[2]);
+    kani::cover!(want && bit == 31);
+    kani::cover!(!want && h2.checksum_valid());
+}
+
+/// Any single-bit corruption of the magic bytes or an unknown type byte makes the header fail,
+/// whatever the rest of the chunk is.
+#[kani::proof]
+#[kani::unwind(12)]
+#[kani::stub(crate::storage::chunk::hash, stub_hash)]
+fn chunk_magic_and_type_corruption_rejected() {
+    let mut bytes: [u8; 12] = kani::any();
+    bytes[0] = 0x85;
+    bytes[1] = 0x6f;
+    bytes[2] = 0x4a;
+    bytes[3] = 0x83;
+    let bit: u8 = kani::any();
+    kani::assume(bit < 32);
+    let mut bad = bytes;
+    bad[(bit / 8) as usize] ^= 1 << (bit % 8);
+    let r = Header::parse::<error::Header>(Input::new(&bad));
+    assert!(matches!(r, Err(ParseError::Error(error::Header::InvalidMagicBytes))));
+    if bytes[8] > 3 {
+        let r2 = Header::parse::<error::Header>(Input::new(&bytes));
+        assert!(matches!(r2, Err(ParseError::Error(error::Header::UnknownChunkType(_)))));
+        std::mem::forget(r2);
+    }
+    kani::cover!(bytes[8] > 3);
+    kani::cover!(bit == 0);
+    std::mem::forget(r);
+}
+
+/// ChunkType <-> u8 is a bijection on 0..=3 and rejects everything else.
+#[kani::proof]
+fn chunk_type_codes() {
+    let t: u8 = kani::any();
+    match ChunkType::try_from(t) {
+        Ok(ct) => {
+            assert!(t <= 3);
+            assert_eq!(u8::from(ct), t);
+        }
+        Err(e) => assert!(t > 3 && e == t),
+    }
+    kani::cover!(t == 3);
+    kani::cover!(t == 4);
+}
